@@ -94,7 +94,12 @@ impl Agent for FakeAgent {
                     .map_err(|_| swimos_api::error::AgentInitError::FailedToStart)?;
                 lanes.push((name, tx, rx));
             }
+            // Numeric ids: the runtime numbers lanes and stores separately, both from 0, and puts the lanes that need no
+            // initialisation first: tval = lane 0, val = lane 1. A store that is never written takes store id 0 so that
+            // `vstore` gets store id 1, the id of the lane `val`.
+            let mut store0 = None;
             let mut store = if persist.as_ref().map(|p| p.mirror_store).unwrap_or(false) {
+                store0 = Some(context.add_store("vstore0", StoreKind::Value).await.map_err(|_| swimos_api::error::AgentInitError::FailedToStart)?);
                 Some(context.add_store("vstore", StoreKind::Value).await.map_err(|_| swimos_api::error::AgentInitError::FailedToStart)?)
             } else {
                 None
@@ -128,13 +133,17 @@ impl Agent for FakeAgent {
                     let _ = tokio_util::codec::Encoder::encode(&mut ValueLaneResponseEncoder::default(), LaneResponse::<i32>::Initialized, &mut b);
                     tx.write_all(&b).await.map_err(|_| fail())?;
                 }
-                if let Some((tx, rx)) = store.as_mut() {
+                for (which, (tx, rx)) in store0.iter_mut().chain(store.iter_mut()).enumerate() {
                     let mut dec = ValueStoreInitDecoder::<i32>::default();
                     let mut buf = BytesMut::new();
                     'sinit: loop {
                         loop {
                             match dec.decode(&mut buf) {
-                                Ok(Some(StoreInitMessage::Command(v))) => restored_vstore = v,
+                                Ok(Some(StoreInitMessage::Command(v))) => {
+                                    if which == 1 {
+                                        restored_vstore = v;
+                                    }
+                                }
                                 Ok(Some(StoreInitMessage::InitComplete)) => break 'sinit,
                                 Ok(None) => break,
                                 Err(_) => return Err(fail()),
@@ -164,7 +173,7 @@ impl Agent for FakeAgent {
                 },
             );
             rec(&truth, TruthEv::Start);
-            Ok(fake_task(context, lanes, store, config, truth, plan, persist, restored_val).boxed())
+            Ok(fake_task(context, lanes, store, store0, config, truth, plan, persist, restored_val).boxed())
         }
         .boxed()
     }
@@ -180,6 +189,7 @@ async fn fake_task(
     context: Box<dyn AgentContext + Send>,
     lanes: Vec<(&'static str, ByteWriter, ByteReader)>,
     store: Option<(ByteWriter, ByteReader)>,
+    _store0: Option<(ByteWriter, ByteReader)>,
     lane_config: LaneConfig,
     truth: SharedTruth,
     plan: Option<FailPlan>,
